@@ -89,6 +89,17 @@ M = [
     ('C14', 'Boolean', 'pgpy.packet.subpackets.signature', '        self.bflag = bool(self.bytes_to_int(val))', '        self.bool = bool(self.bytes_to_int(val))'),
     ('C14', 'exportable', 'pgpy.pgp', "            return bool(next(iter(self._signature.subpackets['ExportableCertification'])))\n\n        return True", "            return bool(next(iter(self._signature.subpackets['ExportableCertification'])))\n\n        return False"),
     ('C15', 'selfsig', 'pgpy.pgp', '            for sig in reversed(self._signatures):\n                if sig.signer_fingerprint:', '            for sig in self._signatures:\n                if sig.signer_fingerprint:'),
+    ('C16', '_action[certify-foreign-uid]', 'pgpy.decorators', "and hasattr(args[0], 'is_uid') and (args[0].parent is None or args[0].parent is key)", "and hasattr(args[0], 'is_uid')"),
+    ('C16', '_action[other]', 'pgpy.decorators', '                    self.check_attributes(_key)\n', '                    pass\n'),
+    ('C02', 'certify[', 'pgpy.pgp', "        if usage is not None:\n            sig._signature.subpackets.addnew('KeyFlags', hashed=True, flags=usage)\n\n        if exportable is not None:", "        if usage is not None:\n            sig._signature.subpackets.addnew('KeyFlags', hashed=False, flags=usage)\n\n        if exportable is not None:"),
+    ('C02', 'certify[', 'pgpy.pgp', '        if isinstance(subject, PGPKey):\n            sig_type = SignatureType.DirectlyOnKey\n', '        if isinstance(subject, PGPKey):\n            sig_type = SignatureType.Generic_Cert\n'),
+    ('C02', 'subpackets.CreationTime', 'pgpy.packet.subpackets.signature', '        _bytes += self.int_to_bytes(calendar.timegm(self.created.utctimetuple()), 4)\n        return _bytes\n\n    def parse(self, packet):\n        super(CreationTime, self).parse(packet)', '        _bytes += self.int_to_bytes(calendar.timegm(self.created.timetuple()), 4)\n        return _bytes\n\n    def parse(self, packet):\n        super(CreationTime, self).parse(packet)'),
+    ('C03', 'ECKDF.derive_key', 'pgpy.packet.fields', "data += b'Anonymous Sender    '", "data += b'Anonymous Sender   '"),
+    ('C03', 'ECKDF.derive_key', 'pgpy.packet.fields', "data += b'\\x03\\x01'\n        data.append(self.halg)\n        data.append(self.encalg)", "data += b'\\x03\\x01'\n        data.append(self.encalg)\n        data.append(self.halg)"),
+    ('C03', 'ECDHCipherText.encrypt', 'pgpy.packet.fields', 'padder = PKCS7(64).padder()', 'padder = PKCS7(128).padder()'),
+    ('C01', 'verify[collect,message', 'pgpy.pgp', '                if sig.signer in _ids:\n                    yield sig', '                if True:\n                    yield sig'),
+    ('C01', 'verify[collect,uid', 'pgpy.pgp', '        if len(sspairs) == 0:\n            raise PGPError("No signatures to verify")', '        if False:\n            raise PGPError("No signatures to verify")'),
+    ('C01', 'verify[collect,key', 'pgpy.pgp', '                        sspairs.append((sig, ua))', '                        sspairs.append((sig, subject))'),
 ]
 
 
